@@ -47,7 +47,7 @@ Qed.
 Lemma sp_step_shift c a o :
   sp_step (shift_sst c a) o = (shift_sst c (fst (sp_step a o)), snd (sp_step a o)).
 Proof.
-  destruct o as [t p|k| | | |]; cbn [sp_step].
+  destruct o as [t p|k| | | | |]; cbn [sp_step].
   - unfold sp_add. cbn [shift_sst ss shift_sp s_tcur s_next s_zero s_rest shandles].
     destruct (t <? s_tcur (ss a)); [reflexivity|]. destruct (t =? s_tcur (ss a)); cbn [fst snd].
     + unfold shift_sst, shift_sp. cbn. rewrite !map_app. cbn. unfold shift_h, shift_ev. cbn.
@@ -67,6 +67,7 @@ Proof.
   - cbn [fst snd]. f_equal. f_equal. unfold sp_len. cbn. rewrite !map_length. reflexivity.
   - reflexivity.
   - cbn [fst snd]. f_equal. unfold sp_peek. cbn. destruct (s_zero (ss a)); cbn; [destruct (s_rest (ss a))|]; reflexivity.
+  - reflexivity.
 Qed.
 
 Theorem outputs_independent_of_id_origin c ops : forall a,
